@@ -172,6 +172,46 @@ theorem printE_order_asc (e : Expr) :
   cases h1 : e.isNullVal <;> cases h2 : e.isFunc <;> cases h3 : e.isRandFunc <;>
     simp [printE, fmt_Order, c_AscScr, h1, h2, h3]
 
+/-! ### table expressions -/
+def printAliasOpt (a : String) : List Tok := if a = "" then [] else [Tok.kw .AS, Tok.id a]
+
+theorem printT_table (q name as_ : String) :
+    printT (.table q name as_) = printTableName q name ++ printAliasOpt as_ := by
+  by_cases h : as_ = "" <;> simp [printT, fmt_AliasedTableExpr, printAliasOpt, printId, h]
+theorem printT_sub (s : Sel) (as_ : String) (h : as_ ≠ "") :
+    printT (.sub s as_) = Tok.kw .LPAREN :: (printS s ++ [Tok.kw .RPAREN, Tok.kw .AS, Tok.id as_]) := by
+  simp [printT, fmt_AliasedTableExpr, fmt_Subquery, printId, h]
+theorem printT_paren (ts : List Tbl) :
+    printT (.paren ts) = Tok.kw .LPAREN :: (list_TableExprs.run (printTs ts) ++ [Tok.kw .RPAREN]) := by
+  simp [printT, fmt_ParenTableExpr]
+
+def joinToks (strat : Strategy) (kind : JoinKind) : List Tok :=
+  (if strat.isLookupOrStream then strat.toks else []) ++ kind.toks
+def printJoinCond (on : Option Expr) (us : List String) : List Tok :=
+  (match on with
+   | some e => Tok.kw .ON :: printE e
+   | none => []) ++ (if us.isEmpty then [] else Tok.kw .USING :: list_Columns.run (us.map printId))
+
+theorem printT_join (l : Tbl) (strat : Strategy) (kind : JoinKind) (r : Tbl) (on : Option Expr) (us : List String) :
+    printT (.join l strat kind r on us) = printT l ++ (joinToks strat kind ++ (printT r ++ printJoinCond on us)) := by
+  cases h : strat.isLookupOrStream <;> cases on <;> cases hu : us.isEmpty <;>
+    simp [printT, fmt_JoinTableExpr, fmt_JoinCondition, joinToks, printJoinCond, printOE, optToks, h, hu]
+theorem printT_tvf (name : String) (args : List Tbl) (as_ : String) (h1 : name ≠ "") (h2 : as_ ≠ "") :
+    printT (.tvf name args as_) = Tok.id name :: Tok.kw .LPAREN ::
+      (list_TableValuedFunctionArguments.run (printTs args) ++ [Tok.kw .RPAREN, Tok.kw .AS, Tok.id as_]) := by
+  simp [printT, fmt_TableValuedFunction, printId, h1, h2]
+theorem printT_argE (name : String) (e : Expr) (h : name ≠ "") :
+    printT (.argE name e) = Tok.id name :: Tok.kw .RIGHTARROW :: printE e := by
+  simp [printT, fmt_TableValuedFunctionArgument, fmt_ExprTableValuedFunctionArgumentValue, printId, h]
+theorem printT_argT (name : String) (t : Tbl) (h : name ≠ "") :
+    printT (.argT name t) = Tok.id name :: Tok.kw .RIGHTARROW :: Tok.kw .TABLE :: Tok.kw .LPAREN ::
+      (printT t ++ [Tok.kw .RPAREN]) := by
+  simp [printT, fmt_TableValuedFunctionArgument, fmt_TableDescriptorTableValuedFunctionArgumentValue, printId, h]
+theorem printT_argD (name q2 q1 c : String) (h : name ≠ "") :
+    printT (.argD name q2 q1 c) = Tok.id name :: Tok.kw .RIGHTARROW :: Tok.kw .DESCRIPTOR :: Tok.kw .LPAREN ::
+      (printColName q2 q1 c ++ [Tok.kw .RPAREN]) := by
+  simp [printT, fmt_TableValuedFunctionArgument, fmt_FieldDescriptorTableValuedFunctionArgumentValue, printId, h]
+
 /-! ### select statements -/
 def printWhereK (k : Kw) : Option Expr → List Tok
   | none => []
